@@ -23,6 +23,12 @@ func main() {
 	switch os.Args[1] {
 	case "bufpool":
 		bufpoolMain(a)
+	case "keepalive":
+		keepaliveMain(a)
+	case "ws-reader":
+		wsReaderMain(a)
+	case "ws-broker":
+		wsBrokerMain(a)
 	case "topics-seq":
 		topicsSeq(a)
 	case "topics-conc":
